@@ -6,7 +6,8 @@ import Proofs.Lemmas.ParArchLiveWitness
 /-!
 # C12 -- liveness, part 7: the livelock, formally
 
-Two ranks.  After the helper's first `_send_updated_age` and rank 0's first slice, the schedule
+Two ranks.  After the collecting receive of rank 0 (served by the helper's first `_send_updated_age`),
+one loop iteration of the helper and rank 0's first slice, the schedule
 
     rank 0: iprobe(AGE_UPDATE) -> finds the helper's message
     helper: iprobe(EXIT) -> nothing;  evolve one slice;  _send_updated_age
@@ -22,32 +23,30 @@ namespace Bingo
 namespace C12
 open ParArch
 
-/-- the state at the start of a period: rank 0 about to probe, one age update of the helper waiting -/
+/-- the state at the start of a period: rank 0 about to probe, one age update of the helper waiting;
+`target_total_age = 0 + 0 + 1 * 2` -/
 def lockState (a1 : Nat) (t1 : Option Nat) (x : Nat) : State :=
-  { R := 2, sync := 1, target := 1, pc0 := .draining none, pcH := [.done, .checking], mbox := [(1, x)],
-    exitQ := [0, 0], arrived := [false, false], ages := [1, a1], table := [some 1, t1] }
+  { R := 2, sync := 1, numSteps := 1, goal := 2, pc0 := .draining none, pcH := [.done, .checking], mbox := [(1, x)],
+    exitQ := [0, 0], arrived := [false, false], ages := [1, a1], table := [some 1, t1], ages0 := [0, 0] }
 
 /-- one period of the schedule -/
 def lockCycle : List Action :=
   [.iprobe 0 none tagAge (some 1), .iprobe 1 (some 0) tagExit none, .evolve 1 1, .isend 1 0 tagAge, .recv 0 1 tagAge]
 
-/-- the two actions leading from the start of the call to the first period -/
-def lockPrefix : List Action := [.isend 1 0 tagAge, .evolve 0 1]
+/-- the six actions leading from the start of the call to the first period: the helper's first age
+update, rank 0's collecting receive, one loop iteration of the helper, rank 0's first slice -/
+def lockPrefix : List Action :=
+  [.isend 1 0 tagAge, .recv 0 1 tagAge, .iprobe 1 (some 0) tagExit none, .evolve 1 1, .isend 1 0 tagAge, .evolve 0 1]
 
-theorem lock_prefix : run (initial 2 1 1 [0, 0]) lockPrefix = some (lockState 0 none 0) := rfl
+theorem lock_prefix : run (initial 2 1 1 [0, 0]) lockPrefix = some (lockState 1 (some 0) 1) := rfl
 
 theorem lock_period (a1 : Nat) (t1 : Option Nat) (x : Nat) :
     run (lockState a1 t1 x) lockCycle = some (lockState (a1 + 1) (some x) (a1 + 1)) := rfl
 
-/-- `total_age[1]` at the start of period `k` -/
-def lockTab : Nat → Option Nat
-  | 0 => none
-  | k + 1 => some k
-
 /-- start of period `k` -/
-def lockS (k : Nat) : State := lockState k (lockTab k) k
+def lockS (k : Nat) : State := lockState (k + 1) (some k) (k + 1)
 
-theorem lockS_period (k : Nat) : run (lockS k) lockCycle = some (lockS (k + 1)) := lock_period k (lockTab k) k
+theorem lockS_period (k : Nat) : run (lockS k) lockCycle = some (lockS (k + 1)) := lock_period (k + 1) (some k) (k + 1)
 
 /-- the livelock execution (from the first period on) -/
 def lockSt (n : Nat) : State := stOf (lockS (n / 5)) lockCycle (n % 5)
@@ -113,58 +112,76 @@ theorem lock_slices : ∀ n a, lockAct n = some a → slicePos a = true := by
 
 /-! ## the same execution from the start of the call -/
 
-/-- prepend a state / an action to an execution -/
-def consSt (s0 : State) (st : Nat → State) : Nat → State
-  | 0 => s0
-  | n + 1 => st n
+/-- prepend a finite run to an execution -/
+def preSt (s0 : State) (pre : List Action) (st : Nat → State) (n : Nat) : State :=
+  if n < pre.length then stOf s0 pre n else st (n - pre.length)
 
-def consAct (a : Action) (act : Nat → Option Action) : Nat → Option Action
-  | 0 => some a
-  | n + 1 => act n
+def preAct (pre : List Action) (act : Nat → Option Action) (n : Nat) : Option Action :=
+  if n < pre.length then pre[n]? else act (n - pre.length)
 
-theorem isExec_cons {s0 : State} {a : Action} {st : Nat → State} {act : Nat → Option Action}
-    (h : step s0 a = some (st 0)) (he : IsExec st act) : IsExec (consSt s0 st) (consAct a act) := by
+theorem preSt_ge (s0 : State) (pre : List Action) (st : Nat → State) (n : Nat) :
+    preSt s0 pre st (n + pre.length) = st n := by
+  have : ¬ n + pre.length < pre.length := by omega
+  simp only [preSt, this, if_false, Nat.add_sub_cancel]
+
+theorem preAct_ge (pre : List Action) (act : Nat → Option Action) (n : Nat) :
+    preAct pre act (n + pre.length) = act n := by
+  have : ¬ n + pre.length < pre.length := by omega
+  simp only [preAct, this, if_false, Nat.add_sub_cancel]
+
+theorem isExec_pre {s0 : State} {pre : List Action} {st : Nat → State} {act : Nat → Option Action}
+    (h : run s0 pre = some (st 0)) (he : IsExec st act) : IsExec (preSt s0 pre st) (preAct pre act) := by
   intro n
-  cases n with
-  | zero => exact Or.inl ⟨a, rfl, h⟩
-  | succ n => exact he n
-
-/-- state after the helper's first `_send_updated_age` -/
-def lockMid : State := stOf (initial 2 1 1 [0, 0]) lockPrefix 1
+  by_cases hn : n < pre.length
+  · refine Or.inl ⟨pre[n], by simp [preAct, hn], ?_⟩
+    have hstep := stOf_step h hn
+    have e1 : preSt s0 pre st n = stOf s0 pre n := by simp only [preSt, hn, if_true]
+    rw [e1]
+    by_cases hn1 : n + 1 < pre.length
+    · have e2 : preSt s0 pre st (n + 1) = stOf s0 pre (n + 1) := by simp only [preSt, hn1, if_true]
+      rw [e2]; exact hstep
+    · have e2 : preSt s0 pre st (n + 1) = st 0 := by
+        have : n + 1 = 0 + pre.length := by omega
+        rw [this]; exact preSt_ge s0 pre st 0
+      rw [e2]
+      have e3 : stOf s0 pre (n + 1) = st 0 := stOf_ge h (by omega)
+      rw [e3] at hstep
+      exact hstep
+  · obtain ⟨j, rfl⟩ : ∃ j, n = j + pre.length := ⟨n - pre.length, by omega⟩
+    have e2 : j + pre.length + 1 = (j + 1) + pre.length := by omega
+    rw [e2, preSt_ge, preSt_ge, preAct_ge]
+    exact he j
 
 /-- the livelock as an execution of one call of `_non_blocking_execution` on two ranks -/
-def lockFullSt : Nat → State := consSt (initial 2 1 1 [0, 0]) (consSt lockMid lockSt)
-def lockFullAct : Nat → Option Action := consAct (.isend 1 0 tagAge) (consAct (.evolve 0 1) lockAct)
+def lockFullSt : Nat → State := preSt (initial 2 1 1 [0, 0]) lockPrefix lockSt
+def lockFullAct : Nat → Option Action := preAct lockPrefix lockAct
 
-theorem lockFull_isExec : IsExec lockFullSt lockFullAct := by
-  have h0 : step (initial 2 1 1 [0, 0]) (.isend 1 0 tagAge) = some lockMid :=
-    stOf_step lock_prefix (n := 0) (by decide)
-  have h1 : step lockMid (.evolve 0 1) = some (lockSt 0) := by
-    have := stOf_step lock_prefix (n := 1) (by decide)
-    rw [stOf_ge lock_prefix (n := 2) (Nat.le_refl _)] at this
-    exact this
-  exact isExec_cons h0 (isExec_cons h1 lock_isExec)
+theorem lockFull_start : lockFullSt 0 = initial 2 1 1 [0, 0] := rfl
 
-theorem lockFull_not_final : ∀ n, isFinal (lockFullSt n) = false
-  | 0 => by decide
-  | 1 => by decide
-  | n + 2 => lock_not_final n
+theorem lockFull_ge (n : Nat) : lockFullSt (n + 6) = lockSt n ∧ lockFullAct (n + 6) = lockAct n :=
+  ⟨preSt_ge (initial 2 1 1 [0, 0]) lockPrefix lockSt n, preAct_ge lockPrefix lockAct n⟩
 
-theorem lockFull_slices : ∀ n a, lockFullAct n = some a → slicePos a = true
-  | 0, a, h => by
-    have : a = .isend 1 0 tagAge := by
-      have h' : some (Action.isend 1 0 tagAge) = some a := h
-      injection h' with h'; exact h'.symm
-    subst this; rfl
-  | 1, a, h => by
-    have : a = .evolve 0 1 := by
-      have h' : some (Action.evolve 0 1) = some a := h
-      injection h' with h'; exact h'.symm
-    subst this; rfl
-  | n + 2, a, h => by
-    have hall : lockCycle.all slicePos = true := by decide
+theorem lockFull_isExec : IsExec lockFullSt lockFullAct :=
+  isExec_pre (st := lockSt) lock_prefix lock_isExec
+
+theorem lockFull_not_final (n : Nat) : isFinal (lockFullSt n) = false := by
+  by_cases hn : n < 6
+  · have : n = 0 ∨ n = 1 ∨ n = 2 ∨ n = 3 ∨ n = 4 ∨ n = 5 := by omega
+    rcases this with h | h | h | h | h | h <;> subst h <;> decide
+  · obtain ⟨j, rfl⟩ : ∃ j, n = j + 6 := ⟨n - 6, by omega⟩
+    rw [(lockFull_ge j).1]; exact lock_not_final j
+
+theorem lockFull_slices (n : Nat) (a : Action) (h : lockFullAct n = some a) : slicePos a = true := by
+  by_cases hn : n < 6
+  · have h' : lockPrefix[n]? = some a := by
+      have hn' : n < lockPrefix.length := hn
+      simpa [lockFullAct, preAct, hn'] using h
+    have hall : lockPrefix.all slicePos = true := by decide
     rw [List.all_eq_true] at hall
-    exact hall a (List.mem_of_getElem? (h : lockAct n = some a))
+    exact hall a (List.mem_of_getElem? h')
+  · obtain ⟨j, rfl⟩ : ∃ j, n = j + 6 := ⟨n - 6, by omega⟩
+    rw [(lockFull_ge j).2] at h
+    exact lock_slices j a h
 
 theorem lockFull_fair : Fair lockFullSt lockFullAct := by
   intro r n hen
@@ -177,7 +194,7 @@ theorem lockFull_fair : Fair lockFullSt lockFullAct := by
     have := enabled_lt (by rw [hR]; omega) hen
     omega
   obtain ⟨m, hm, a, ha, hra, hta⟩ := lock_acts r hr n
-  exact ⟨m + 2, by omega, a, ha, hra, hta⟩
+  exact ⟨m + 6, by omega, a, by rw [(lockFull_ge m).2]; exact ha, hra, hta⟩
 
 end C12
 end Bingo
